@@ -12,6 +12,22 @@ from .rt import land, lor, lnot, bits, bit
 WIDTH = {'arm': 32, 't16': 16, 't32': 32}
 
 
+def also_families(cls, family):
+    """'+'-joined properties a row's functional obligations belong to.  Single-register loads and stores are C02; their byte
+    footprint, endianness and alignment handling is what C13 states at instruction level; the unprivileged forms (LDRT, STRT,
+    LDRBT, ...) carry the last clause of C19; rows naming a mode or bank explicitly carry C10 through post.banks anyway."""
+    import re
+    if not family:
+        return family
+    fs = family.split('+')
+    if 'C02' in fs:
+        if 'C13' not in fs:
+            fs.append('C13')
+        if re.match(r'(Ldr|Str)(b|h|sb|sh)?t[A-Z]', cls) and 'C19' not in fs:
+            fs.append('C19')
+    return '+'.join(fs)
+
+
 class Row:
     def __init__(self, cls, iset, pattern, op, when=None, unpred=None, undef=None, family=None, note='', opfields=None, exec_class=None):
         self.cls = cls
@@ -21,7 +37,7 @@ class Row:
         self.when = when
         self.unpred = unpred
         self.undef = undef
-        self.family = family
+        self.family = also_families(cls, family)
         self.note = note
         # rows whose operation is verified at function level (loop cut): the step units check only that decode hands
         # execute() of `exec_class` the architectural fields `opfields(f)`
